@@ -555,5 +555,6 @@ pub fn run(tier: Tier) -> i32 {
     rep.rule = "all token strings up to the length bound over alphabets covering every token class (blank-separated and concatenated), all single and double token edits of well-formed texts, deterministic families with nesting depth 1..100 and up to 1000 tokens; every parsing entry point (flat, uncompiled, deep, eval_str, value-typed, statement lines, serde) and, on success, the follow-up calls; executed in journaled worker subprocesses; distinct = texts; non-trivial = texts some parser accepts".into();
     rep.assumptions = vec!["panics are caught in-process; aborts, stack overflows and hangs are attributed by bisection and confirmed in a fresh process; worker main threads run with the default 8 MiB stack".into()];
     crate::sweep::parent("C06", tier, families, &mut rep);
+    crate::derived::run_derived(&mut rep, "C06", crate::derived::Focus::Crash, tier.thorough());
     rep.finish()
 }
